@@ -1,1 +1,15 @@
-def main : IO Unit := pure ()
+import GeoModel.Driver
+open Geo Driver
+
+partial def loop (hin : IO.FS.Stream) (hout : IO.FS.Stream) (env : Env) : IO Unit := do
+  let line ← hin.getLine
+  if line.isEmpty then return ()
+  let (env', out) := step env line
+  hout.putStrLn out
+  loop hin hout env'
+
+def main : IO Unit := do
+  let hin ← IO.getStdin
+  let hout ← IO.getStdout
+  loop hin hout {}
+  hout.flush
